@@ -3,7 +3,7 @@
  * Ghost-index discipline (no `forall` in cbmc): ONE arbitrary slot index g_k is tracked in EVERY block (the
  * vector's own block, the other vector's block, every block allocated during the call).  The lifetime protocol
  * asserts of ELEM_* fire exactly for pointers whose offset inside their object is g_k * sizeof(ELEM) (and for
- * stand-alone ELEM objects, e.g. a `value` argument).  g_k is a nondet input that no harness constrains, so a
+ * the stand-alone ELEM object g_solo of the harness, e.g. a `value` argument).  g_k is a nondet input that no harness constrains, so a
  * protocol violation at any slot of any block is a violation for g_k == that slot's index.  State UPDATES of
  * ELEM_* are unconditional, so the tracked slot's state is exactly what the untracked model would compute.
  * Natively (REPLAY) every slot is tracked: the blocks are concretely initialised there.
@@ -21,22 +21,29 @@ size_t g_k;                 /* the tracked slot index (arbitrary) */
 int g_lt_waived;            /* 1 inside a known-finding window of the carved-out run */
 int g_thrown;               /* at(): `throw std::out_of_range` rewritten to g_thrown = 1; return NULL */
 
-struct ELEM;
+const void *g_solo;         /* a stand-alone ELEM object of the harness (e.g. the `value` argument): always tracked */
+#define C02_SHR >> 0      /* byte offset -> slot index (sizeof(ELEM) == 1) */
 #ifdef REPLAY
 #define ELEM_TRACKED(q) (!g_lt_waived)
 #else
 #define ELEM_TRACKED(q) (!g_lt_waived && \
-    (__CPROVER_POINTER_OFFSET(q) == g_k * 8 || __CPROVER_OBJECT_SIZE(q) == 8))
+    (((size_t)__CPROVER_POINTER_OFFSET(q) C02_SHR) == g_k || (const void *)(q) == g_solo))
 #endif
+/* 1-byte element representation: one array read / write per element operation and no divider in cbmc's array
+ * indexing (with the 8-byte struct the same units run out of memory).  Values are 0..63. */
+#define ELEM_PACKED 1
 #include "elem_lifetime.h"
-_Static_assert(sizeof(ELEM) == 8, "ELEM_TRACKED uses sizeof(ELEM) == 8");
+_Static_assert(sizeof(ELEM) == 1, "packed ELEM");
+/* the slot *p is in state st with value val - ONE read of the slot (cbmc's array theory is quadratic in the reads) */
+#define C02_IS(p, st, val) ((p)->g_bits == (unsigned char)((((unsigned)(val)) << 2) | (unsigned)(st)))
+#define C02_VMAX 63
 
 #define C02_SZ sizeof(ELEM)
 /* slot index of a pointer into a block */
-#define C02_IDX(p) ((size_t)__CPROVER_POINTER_OFFSET(p) / C02_SZ)
+#define C02_IDX(p) ((size_t)__CPROVER_POINTER_OFFSET(p) C02_SHR)
 /* p points at a slot boundary of the block `base`, at most `n` slots in */
 #define C02_IN(p, base, n) (__CPROVER_same_object((p), (base)) && __CPROVER_POINTER_OFFSET(p) >= 0 && \
-    (size_t)__CPROVER_POINTER_OFFSET(p) % C02_SZ == 0 && (size_t)__CPROVER_POINTER_OFFSET(p) <= (n) * C02_SZ)
+    ((size_t)__CPROVER_POINTER_OFFSET(p) & (C02_SZ - 1)) == 0 && (size_t)__CPROVER_POINTER_OFFSET(p) <= (n) * C02_SZ)
 /* largest capacity considered: 2^36 elements of 8 bytes (cbmc object-size limit 2^40, and size+1 / size+n never wrap) */
 #ifdef WITNESS_MODE
 #define C02_MAXN 4
@@ -103,10 +110,10 @@ static inline void c02_deallocate(struct c02_allocator *a, ELEM *p, size_t n)
     if (b >= 0 && !g_blk_freed[b]) {
 #ifdef REPLAY
         for (size_t i = 0; i < g_blk_n[b]; i++)
-            __CPROVER_assert(g_lt_waived || p[i].g_state == ELEM_RAW, "lifetime: block released while an element in it is still alive (constructed, never destroyed)");
+            __CPROVER_assert(g_lt_waived || ELEM_ST(&p[i]) == ELEM_RAW, "lifetime: block released while an element in it is still alive (constructed, never destroyed)");
 #else
         if (g_k < g_blk_n[b])
-            __CPROVER_assert(g_lt_waived || p[g_k].g_state == ELEM_RAW, "lifetime: block released while an element in it is still alive (constructed, never destroyed)");
+            __CPROVER_assert(g_lt_waived || ELEM_ST(&p[g_k]) == ELEM_RAW, "lifetime: block released while an element in it is still alive (constructed, never destroyed)");
 #endif
         g_blk_freed[b] = 1;
         C02_RAW_FREE(p);
@@ -115,4 +122,11 @@ static inline void c02_deallocate(struct c02_allocator *a, ELEM *p, size_t n)
 }
 
 #include "c02_std_algo.h"
+
+/* goto-instrument --apply-loop-contracts havocs statics: every harness starts with c02_init(k, j) */
+static inline void c02_init(size_t k, size_t j)
+{
+    g_k = k; g_j = j; g_lt_waived = 0; g_thrown = 0; g_solo = 0;
+    g_blk_cnt = 0; g_alloc_calls = 0; g_dealloc_calls = 0; g_lex_m = 0;
+}
 #endif
